@@ -11,6 +11,7 @@ verus! {
 //@include prelude/btree_keys.rs
 //@include prelude/serde_json_stub.rs
 //@include lemmas/cjson_spec.rs
+//@include lemmas/unescape_inj.rs
 //@include lemmas/cjson_inj.rs
 
 //@take src/interchange/cjson/mod.rs enum:Value
